@@ -155,20 +155,27 @@ Lemma rewrite_vod_children psshs cs : rewrite_moov_children false psshs cs = cs 
 Proof. reflexivity. Qed.
 
 (* no selected system / clear track: the moov children are untouched in vod mode, and in live mode
-   when moov has no direct mehd child *)
-Lemma drop_first_absent l :
-  Forall (fun x => bytes_eqb (box_typ x) typ_mehd = false) l ->
-  (fix drop_first (l : list box) : list box :=
-     match l with
-     | [] => []
-     | x :: r => if bytes_eqb (box_typ x) typ_mehd then r else x :: drop_first r
-     end) l = l.
-Proof. induction 1 as [|x r Hx _ IH]; [reflexivity|]. rewrite Hx, IH. reflexivity. Qed.
+   when there is no mehd box to delete (neither under moov nor under its mvex children) *)
+Lemma drop_first_absent t l :
+  Forall (fun x => bytes_eqb (box_typ x) t = false) l -> drop_first_typ t l = l.
+Proof. induction 1 as [|x r Hx _ IH]; [reflexivity|]. cbn [drop_first_typ]. rewrite Hx, IH. reflexivity. Qed.
+
+Definition no_mehd (l : list box) : Prop := Forall (fun x => bytes_eqb (box_typ x) typ_mehd = false) l.
+Definition no_mehd_deep (cs : list box) : Prop :=
+  no_mehd cs /\ Forall (fun x => match x with Node t ds => bytes_eqb t typ_mvex = true -> no_mehd ds | _ => True end) cs.
+
+Lemma in_first_absent t f l :
+  Forall (fun x => match x with Node t' ds => bytes_eqb t' t = true -> f ds = ds | _ => True end) l ->
+  in_first_typ t f l = l.
+Proof.
+  induction 1 as [|x r Hx _ IH]; [reflexivity|]. destruct x as [t' p|t' ds]; cbn [in_first_typ box_typ].
+  - destruct (bytes_eqb t' t); [reflexivity|rewrite IH; reflexivity].
+  - destruct (bytes_eqb t' t) eqn:E; [rewrite (Hx eq_refl); reflexivity|rewrite IH; reflexivity].
+Qed.
 
 Theorem rewrite_init_identity live top :
   Forall (fun b => match b with
-                   | Node t cs => bytes_eqb t typ_moov = true ->
-                                  Forall (fun x => bytes_eqb (box_typ x) typ_mehd = false) cs
+                   | Node t cs => bytes_eqb t typ_moov = true -> no_mehd_deep cs
                    | _ => True end) top ->
   rewrite_init live [] top = top.
 Proof.
@@ -176,5 +183,24 @@ Proof.
   rewrite Forall_forall in H. specialize (H b Hb). destruct b as [t p|t cs]; [reflexivity|].
   destruct (bytes_eqb t typ_moov) eqn:E; [|reflexivity]. f_equal.
   unfold rewrite_moov_children. rewrite app_nil_r. destruct live; [|reflexivity].
-  apply drop_first_absent. apply H. reflexivity.
+  destruct (H eq_refl) as (H1 & H2). rewrite (drop_first_absent _ _ H1).
+  apply in_first_absent. apply Forall_forall. intros x Hx. rewrite Forall_forall in H2. specialize (H2 x Hx).
+  destruct x as [t' p|t' ds]; [exact I|]. intros E'. apply drop_first_absent. apply H2. exact E'.
 Qed.
+
+(* del removes the box: with at most one box of the type, none is left *)
+Fixpoint count_typ (t : bytes) (l : list box) : nat :=
+  match l with [] => O | x :: r => ((if bytes_eqb (box_typ x) t then 1 else 0) + count_typ t r)%nat end.
+Lemma count_zero_absent t l : count_typ t l = O -> Forall (fun x => bytes_eqb (box_typ x) t = false) l.
+Proof.
+  induction l as [|x r IH]; intros H; [constructor|]. cbn [count_typ] in H.
+  destruct (bytes_eqb (box_typ x) t) eqn:E; [discriminate|]. constructor; [exact E|apply IH; exact H].
+Qed.
+Lemma drop_first_removes t l : (count_typ t l <= 1)%nat -> Forall (fun x => bytes_eqb (box_typ x) t = false) (drop_first_typ t l).
+Proof.
+  induction l as [|x r IH]; intros H; [constructor|]. cbn [count_typ] in H. cbn [drop_first_typ].
+  destruct (bytes_eqb (box_typ x) t) eqn:E.
+  - apply count_zero_absent. lia.
+  - constructor; [exact E|apply IH; lia].
+Qed.
+
